@@ -271,6 +271,18 @@ Lemma disagg_cell_unobservable res_new n ws fields c :
   observable c (subperiods res_new n c) = [] -> disagg_cell res_new n ws fields c = Ok [].
 Proof. intro H. unfold disagg_cell. rewrite H. reflexivity. Qed.
 
+(* H3: observable sub-periods whose weights sum to zero: division by zero (ZeroDivisionError) *)
+Lemma disagg_cell_zero_prefix res_new n ws fields c :
+  observable c (subperiods res_new n c) <> [] ->
+  qsum (firstn (length (observable c (subperiods res_new n c))) ws) == 0 ->
+  disagg_cell res_new n ws fields c = Err OtherError.
+Proof.
+  intros Hne Hz. unfold disagg_cell.
+  destruct (length (observable c (subperiods res_new n c)) =? 0)%nat eqn:E.
+  - apply Nat.eqb_eq in E. destruct (observable c (subperiods res_new n c)); [congruence|discriminate].
+  - apply Qeq_bool_iff in Hz. rewrite Hz. reflexivity.
+Qed.
+
 (* refusals / identity of the dispatcher *)
 Lemma disagg_same rt w fields tf cells : disaggregate_experience rt rt w fields tf cells = DSame.
 Proof. unfold disaggregate_experience. rewrite Nat.ltb_irrefl, Nat.eqb_refl. reflexivity. Qed.
